@@ -39,6 +39,7 @@ namespace sim
 		, m_client_connection(ios)
 		, m_server_connection(ios)
 		, m_writing_to_server(false)
+		, m_resolving(false)
 		, m_num_client_in_bytes(0)
 		, m_num_server_out_bytes(0)
 		, m_num_in_bytes(0)
@@ -185,6 +186,10 @@ namespace sim
 			, out_request.data(), out_request.size());
 		m_num_server_out_bytes += int(out_request.size());
 
+		// the name of the origin is being looked up. The request is queued and is
+		// sent once the connection has been established
+		if (m_resolving) return;
+
 		if (!m_server_connection.is_open())
 		{
 			boost::system::error_code err;
@@ -194,6 +199,7 @@ namespace sim
 			{
 				char port_str[10];
 				std::snprintf(port_str, sizeof(port_str), "%d", port);
+				m_resolving = true;
 				m_resolver.async_resolve(host, port_str
 					, std::bind(&http_proxy::on_domain_lookup, this, _1, _2));
 				return;
@@ -211,6 +217,7 @@ namespace sim
 	void http_proxy::on_domain_lookup(boost::system::error_code const& ec
 		, const asio::ip::tcp::resolver::results_type ips)
 	{
+		m_resolving = false;
 		if (ec || ips.empty())
 		{
 			if (ec)
@@ -337,6 +344,7 @@ namespace sim
 		m_num_client_in_bytes = 0;
 		m_num_server_out_bytes = 0;
 		m_num_in_bytes = 0;
+		m_resolving = false;
 
 		error_code err;
 		m_client_connection.close(err);
